@@ -402,6 +402,11 @@ func (c *C08Case) addFault(r *gen.Rand, names []string) {
 				in.When = r.Pick("1", "2")
 			}
 		}
+		for _, have := range inv.Injects {
+			if have.Syscall == in.Syscall {
+				return // strace keeps one injection rule per syscall
+			}
+		}
 		inv.Injects = append(inv.Injects, in)
 		c.Faults = append(c.Faults, "io:"+in.Syscall+":"+in.Errno)
 	case 8, 9: // sink faults
@@ -516,6 +521,16 @@ func judgeC08(e *Env, c *C08Case, tag string, run int64) (*c08Obs, *procsim.Outc
 		case out.Signal != "":
 			viol("killed-by-signal", out.Signal)
 		case out.Status == 0:
+			if out.Injected > 0 {
+				// a layer could not be opened or read (injected I/O error that
+				// fired): whatever was printed cannot be the complete output
+				for _, in := range c.Inv.Injects {
+					if (in.Syscall == "read" || in.Syscall == "openat") && in.Errno != "EINTR" {
+						viol("exit-0-despite-failed-layer-io", in.Syscall+" of "+in.Path+" failed with "+in.Errno+" and the tool exited 0")
+						return nil
+					}
+				}
+			}
 			if c.Inv.StdoutTo == "/dev/full" {
 				// does the same run write anything? then exit 0 with a failed sink is wrong
 				i2 := c.Inv
